@@ -141,14 +141,25 @@ class FakeS3:
         self._h("after", "delete", Key, {})
         return {}
 
-    def list_objects_v2(self, Bucket, Prefix="", MaxKeys=1000, **kw):
+    def list_objects_v2(self, Bucket, Prefix="", MaxKeys=1000, ContinuationToken=None, **kw):
+        """pages like S3 does (a small page size here, so that tiny tables already need more than one page): IsTruncated +
+        NextContinuationToken on every page but the last; the request parameter is ContinuationToken"""
         self._h("before", "list", Prefix, {})
-        keys = self._list(Bucket, Prefix)[:MaxKeys]
+        allkeys = self._list(Bucket, Prefix)
+        start = 0
+        if ContinuationToken is not None:
+            start = int(str(ContinuationToken).split(":")[1])
+        n = max(1, min(MaxKeys, self.page_size))
+        keys = allkeys[start:start + n]
         self.log.append(("list", Prefix, None))
         self._h("after", "list", Prefix, {})
         if not keys:
-            return {"KeyCount": 0}
-        return {"Contents": [{"Key": k} for k in keys], "KeyCount": len(keys)}
+            return {"KeyCount": 0, "IsTruncated": False}
+        out = {"Contents": [{"Key": k, "Size": len(self.objects[k].data)} for k in keys if k in self.objects], "KeyCount": len(keys),
+               "IsTruncated": start + n < len(allkeys)}
+        if out["IsTruncated"]:
+            out["NextContinuationToken"] = f"tok:{start + n}"
+        return out
 
     def get_paginator(self, name):
         assert name == "list_objects_v2"
